@@ -553,8 +553,191 @@ func c08mem(v reflect.Value, out map[uintptr]string, depth int) {
 	}
 }
 
+// c08k: position-dependent value index of a struct field; the negative storage shapes apply to every field alike.
+func c08k(k, i int) int {
+	if k < 0 {
+		return k
+	}
+	return k + i
+}
+
+// c08rw lifts the read-only flag reflect puts on values reached through unexported fields (the law test
+// lives in the package of the types; it only ever reads them or appends to a COPY of a slice header).
+func c08rw(v reflect.Value) reflect.Value {
+	if v.CanAddr() {
+		return reflect.NewAt(v.Type(), unsafe.Pointer(v.UnsafeAddr())).Elem()
+	}
+	return v
+}
+
+// c08mark builds a value of type t whose first leaf differs from the zero value; ok = false when the type
+// has no leaf the harness knows how to set.
+func c08mark(t reflect.Type) (reflect.Value, bool) {
+	v := reflect.New(t).Elem()
+	ok := c08setLeaf(v, 0)
+	return v, ok
+}
+
+func c08setLeaf(v reflect.Value, depth int) bool {
+	if depth > 8 {
+		return false
+	}
+	v = c08rw(v)
+	switch v.Kind() {
+	case reflect.Bool:
+		v.SetBool(true)
+	case reflect.Int, reflect.Int8, reflect.Int16, reflect.Int32, reflect.Int64:
+		v.SetInt(77)
+	case reflect.Uint, reflect.Uint8, reflect.Uint16, reflect.Uint32, reflect.Uint64:
+		v.SetUint(77)
+	case reflect.Float32, reflect.Float64:
+		v.SetFloat(7.5)
+	case reflect.String:
+		v.SetString("appended")
+	case reflect.Slice:
+		v.Set(reflect.MakeSlice(v.Type(), 1, 1))
+	case reflect.Map:
+		v.Set(reflect.MakeMap(v.Type()))
+	case reflect.Ptr:
+		v.Set(reflect.New(v.Type().Elem()))
+	case reflect.Struct:
+		if v.NumField() == 0 {
+			return false
+		}
+		return c08setLeaf(v.Field(0), depth+1)
+	case reflect.Array:
+		if v.Len() == 0 {
+			return false
+		}
+		return c08setLeaf(v.Index(0), depth+1)
+	default:
+		return false
+	}
+	return true
+}
+
+// c08leaf reads the leaf c08setLeaf writes.
+func c08leaf(v reflect.Value, depth int) string {
+	if depth > 8 {
+		return "?"
+	}
+	switch v.Kind() {
+	case reflect.Bool:
+		return fmt.Sprint(v.Bool())
+	case reflect.Int, reflect.Int8, reflect.Int16, reflect.Int32, reflect.Int64:
+		return fmt.Sprint(v.Int())
+	case reflect.Uint, reflect.Uint8, reflect.Uint16, reflect.Uint32, reflect.Uint64:
+		return fmt.Sprint(v.Uint())
+	case reflect.Float32, reflect.Float64:
+		return fmt.Sprint(v.Float())
+	case reflect.String:
+		return v.String()
+	case reflect.Slice:
+		return fmt.Sprint("len ", v.Len(), v.IsNil())
+	case reflect.Map, reflect.Ptr:
+		return fmt.Sprint("nil ", v.IsNil())
+	case reflect.Struct:
+		if v.NumField() == 0 {
+			return "?"
+		}
+		return c08leaf(v.Field(0), depth+1)
+	case reflect.Array:
+		if v.Len() == 0 {
+			return "?"
+		}
+		return c08leaf(v.Index(0), depth+1)
+	}
+	return "?"
+}
+
+type c08appendStats struct{ spare, emptyCap, zeroMaps int }
+
+// c08appendBoth is the append-to-both oracle: walk original and clone in parallel (they are structurally
+// equal); at every slice position with spare capacity append a marked element to the ORIGINAL's slice
+// header and then a zero element to the CLONE's: when the clone shares the backing array the second
+// append overwrites the first (a copy that shares no mutable storage never does). Returns a description
+// of the first position where that happened.
+func c08appendBoth(a, c reflect.Value, st *c08appendStats, path string, depth int) string {
+	if depth > 64 || !a.IsValid() || !c.IsValid() || a.Type() != c.Type() {
+		return ""
+	}
+	switch a.Kind() {
+	case reflect.Ptr:
+		if a.IsNil() || c.IsNil() {
+			return ""
+		}
+		return c08appendBoth(a.Elem(), c.Elem(), st, path+".*", depth+1)
+	case reflect.Struct:
+		for i := 0; i < a.NumField(); i++ {
+			if r := c08appendBoth(c08rw(a.Field(i)), c08rw(c.Field(i)), st, path+"."+a.Type().Field(i).Name, depth+1); r != "" {
+				return r
+			}
+		}
+	case reflect.Array:
+		for i := 0; i < a.Len(); i++ {
+			if r := c08appendBoth(a.Index(i), c.Index(i), st, fmt.Sprintf("%s[%d]", path, i), depth+1); r != "" {
+				return r
+			}
+		}
+	case reflect.Map:
+		if a.IsNil() || c.IsNil() {
+			return ""
+		}
+		if a.Len() == 0 {
+			st.zeroMaps++
+		}
+		it := a.MapRange()
+		for it.Next() {
+			cv := c.MapIndex(it.Key())
+			if !cv.IsValid() {
+				continue
+			}
+			// map values are not addressable: walk addressable copies (same slice headers, same backing arrays)
+			av2, cv2 := reflect.New(a.Type().Elem()).Elem(), reflect.New(a.Type().Elem()).Elem()
+			av2.Set(it.Value())
+			cv2.Set(cv)
+			if r := c08appendBoth(av2, cv2, st, path+"[k]", depth+1); r != "" {
+				return r
+			}
+		}
+	case reflect.Slice:
+		n := a.Len()
+		if n != c.Len() {
+			return ""
+		}
+		for i := 0; i < n; i++ {
+			if r := c08appendBoth(a.Index(i), c.Index(i), st, fmt.Sprintf("%s[%d]", path, i), depth+1); r != "" {
+				return r
+			}
+		}
+		if a.Cap() > n && a.CanInterface() && c.CanInterface() {
+			if n == 0 {
+				st.emptyCap++
+			}
+			marked, ok := c08mark(a.Type().Elem())
+			if !ok {
+				return ""
+			}
+			st.spare++
+			want := c08leaf(marked, 0)
+			a2 := reflect.Append(a, marked)
+			_ = reflect.Append(c, reflect.Zero(a.Type().Elem()))
+			if got := c08leaf(a2.Index(n), 0); got != want {
+				return fmt.Sprintf("%s (%s, len %d cap %d): the element appended to the original reads %q after appending to the clone (appended %q)", path, a.Type(), n, a.Cap(), got, want)
+			}
+		}
+	}
+	return ""
+}
+
 func runClone[T any](typ string, inst fp.Clone[T], pool []T, classes []string, tags []string, isStruct bool, se func(a, b T) bool) {
 	n, withStorage, nested := 0, 0, 0
+	var ast c08appendStats
+	defer func() {
+		c08stat("Clone", "slices_with_spare_capacity_appended_to", ast.spare)
+		c08stat("Clone", "empty_slices_with_capacity", ast.emptyCap)
+		c08stat("Clone", "zero_length_maps", ast.zeroMaps)
+	}()
 	for _, a := range pool {
 		c := inst.Clone(a)
 		n++
@@ -587,6 +770,20 @@ func runClone[T any](typ string, inst fp.Clone[T], pool []T, classes []string, t
 				}
 			}
 		}
+		cv := reflect.ValueOf(&c).Elem()
+		// the append-to-both oracle runs after the address walk of the same field and uses the same key family
+		appendBoth := func(x, y reflect.Value, class, tag, name string) {
+			if r := c08appendBoth(x, y, &ast, name, 0); r != "" {
+				key := "shared-storage/slice"
+				if x.Kind() == reflect.Slice && x.Type().Elem().Kind() == reflect.Uint8 {
+					key = "shared-storage/bytes"
+				}
+				if tag != "" {
+					key = "shared-storage/" + tag
+				}
+				c08fail("Clone", key, typ, fmt.Sprintf("append to both: clone and original share a backing array reached through a field of class %s %s: %s (original %+v)", class, tag, r, a))
+			}
+		}
 		if isStruct && av.Kind() == reflect.Struct && av.NumField() == len(classes) {
 			for i := 0; i < av.NumField(); i++ {
 				tag := ""
@@ -594,9 +791,11 @@ func runClone[T any](typ string, inst fp.Clone[T], pool []T, classes []string, t
 					tag = tags[i]
 				}
 				check(av.Field(i), classes[i], tag)
+				appendBoth(c08rw(av.Field(i)), c08rw(cv.Field(i)), classes[i], tag, av.Type().Field(i).Name)
 			}
 		} else {
 			check(av, classes[0], "")
+			appendBoth(av, cv, classes[0], "", "value")
 		}
 	}
 	c08stat("Clone", "values", n)
@@ -604,12 +803,35 @@ func runClone[T any](typ string, inst fp.Clone[T], pool []T, classes []string, t
 	c08stat("Clone", "fields_with_storage_in_nested_plain_struct", nested)
 }
 
-func runShow[T any](typ string, inst fp.Show[T], pool []T, rebuilt []T) {
-	n := 0
+// runShow. leaves / mode: derive-package oracle. mode 1 = the directive names the scratch module's package upshow,
+// whose String instance renders s as "⟦" + upper(s) + "⟧": every non-empty string leaf must
+// appear that way; mode 2 = the directive names the library's show package: no "⟦" may appear.
+func runShow[T any](typ string, inst fp.Show[T], pool []T, rebuilt []T, leaves func(T) []string, mode int) {
+	n, marks := 0, 0
+	defer func() { c08stat("Show", "derive_package_renderings_checked", marks) }()
 	for i, a := range pool {
 		s1 := inst.Show(a)
 		s2 := inst.Show(a)
 		n++
+		if leaves != nil {
+			switch mode {
+			case 1:
+				for _, s := range leaves(a) {
+					if s == "" {
+						continue
+					}
+					marks++
+					if want := "⟦" + strings.ToUpper(s) + "⟧"; !strings.Contains(s1, want) {
+						c08fail("Show", "derive-package/alternative-package-instance-not-used", typ, fmt.Sprintf("directive through the upshow package: the string %q must be rendered by its String instance as %s, Show gives %q", s, want, s1))
+					}
+				}
+			case 2:
+				marks++
+				if strings.Contains(s1, "⟦") {
+					c08fail("Show", "derive-package/instance-of-another-derive-package-used", typ, fmt.Sprintf("directive through the library package: Show gives %q, which contains the rendering of the String instance of upshow", s1))
+				}
+			}
+		}
 		if s1 != s2 {
 			c08fail("Show", "deterministic", typ, fmt.Sprintf("%q then %q", s1, s2))
 		}
